@@ -18,6 +18,7 @@ Inductive mutator :=
 | MRemFin (fs : list atom)
 | MSetSpec (v : atom)
 | MSetLabel (k v : atom)
+| MBump                          (* a mutator that is not idempotent: spec "" -> "c0", otherwise the second byte + 1 *)
 | MSeq (a b : mutator).
 
 Definition fin_add (f : atom) (l : list atom) : list atom :=
@@ -49,6 +50,8 @@ Fixpoint mutate (m : mutator) (r : res) : option res :=
   | MRemFin fs => Some (set_fields r (r_phase r) (fold_left (fun l f => fin_remove f l) fs (r_fins r)) (r_labels r) (r_spec r))
   | MSetSpec v => Some (set_fields r (r_phase r) (r_fins r) (r_labels r) v)
   | MSetLabel k v => Some (set_fields r (r_phase r) (r_fins r) (lab_set k v (r_labels r)) (r_spec r))
+  | MBump => Some (set_fields r (r_phase r) (r_fins r) (r_labels r)
+                     (if N.eqb (r_spec r) 0 then 109057809580032 else r_spec r + 4294967296))
   | MSeq a b => match mutate a r with Some r' => mutate b r' | None => None end
   end.
 
